@@ -1,5 +1,5 @@
 SPECIFICATION Spec
-CONSTANTS Dev = {"RsaLeftAligned"}
+CONSTANTS Dev = {"SkipExchangeWhenKeyInMemory"}
  SkipCheck = {}
  LZ = {0, 1, 2}
  MaxAttempts = 2
